@@ -69,6 +69,15 @@ func usage() {
 	os.Exit(2)
 }
 
+// outDir is where evidence/ and replays/ are written: /verif, unless a
+// scratch evaluation (seeded changes) redirects it.
+func outDir() string {
+	if d := os.Getenv("VERIF_OUT_DIR"); d != "" {
+		return d
+	}
+	return verifDir
+}
+
 func repoDir() string {
 	if d := os.Getenv("VERIF_REPO"); d != "" {
 		return d
@@ -501,7 +510,7 @@ func cmdCheck(args []string) int {
 				if knownSeen[kf.ID] != nil {
 					continue
 				}
-			} else if handled >= 4 {
+			} else if handled >= 3 {
 				continue
 			}
 			// choose the run with the shortest tape that still has its tape
@@ -624,7 +633,7 @@ func minimiseAndConfirm(b *built, prop, sig string, r *sim.RunResult, tier strin
 	tf := filepath.Join(b.scratch, fmt.Sprintf("tape-%d.json", r.Run))
 	tb, _ := json.Marshal(r.Tape)
 	os.WriteFile(tf, tb, 0o644)
-	a := sim.WorkerArgs{Prop: prop, Mode: "shrink", TapeFile: tf, Out: filepath.Join(b.scratch, fmt.Sprintf("shrink-%d.json", r.Run)), Target: sig, WallS: 60, Tier: tier}
+	a := sim.WorkerArgs{Prop: prop, Mode: "shrink", TapeFile: tf, Out: filepath.Join(b.scratch, fmt.Sprintf("shrink-%d.json", r.Run)), Target: sig, WallS: 25, Tier: tier}
 	out, tail, err := runWorker(b, a, 5*time.Minute)
 	var res *sim.RunResult
 	if err == nil && out != nil && out.Replayed != nil {
@@ -635,9 +644,9 @@ func minimiseAndConfirm(b *built, prop, sig string, r *sim.RunResult, tier strin
 		_ = tail
 	}
 	// write the replay file, then confirm it in a fresh process
-	os.MkdirAll(filepath.Join(verifDir, "replays"), 0o755)
+	os.MkdirAll(filepath.Join(outDir(), "replays"), 0o755)
 	name := fmt.Sprintf("%s-%d-%d.json", prop, r.Seed, r.Run)
-	path := filepath.Join(verifDir, "replays", name)
+	path := filepath.Join(outDir(), "replays", name)
 	detail := ""
 	for _, v := range res.Violations {
 		if v.Prop+":"+v.Class == sig {
@@ -854,9 +863,9 @@ func writeEvidence(prop, tier string, seed uint64, b *built, batches []*batchRes
 		"wall_s":     wallS,
 		"violations": len(conf),
 	}
-	os.MkdirAll(filepath.Join(verifDir, "evidence"), 0o755)
+	os.MkdirAll(filepath.Join(outDir(), "evidence"), 0o755)
 	jb, _ := json.MarshalIndent(ev, "", " ")
-	os.WriteFile(filepath.Join(verifDir, "evidence", prop+".json"), jb, 0o644)
+	os.WriteFile(filepath.Join(outDir(), "evidence", prop+".json"), jb, 0o644)
 }
 
 // ---------------------------------------------------------------------------
